@@ -42,6 +42,14 @@ CHECKS = {
          "values outside the 16-bit field must be rejected with 4144/4145 and no font."),
    note=TB + "Hypothesis of the theorem (distinct lines) is necessary: the excluded point is the recorded known finding. Not covered yet: m-unit scaling, glyph metrics/point()/box() in values, directionality/mirroring defaults (ICU), >255 attributes.",
    design="4/C05"),
+ "C14": dict(
+   technique="Lean 4 theorem (skip-bit soundness for all glyph strings and positions) + its hypothesis evaluated on the decoded *skipPasses* attributes of real output + differential shaping of default vs -p builds with libgraphite2",
+   text=("Proof: Grc.PB.skip_sound — if every effective rule of a pass has an input item all of whose class members have the pass's skip bit cleared, then on every glyph string whose glyphs all "
+         "carry the bit no effective rule matches at any position (so skipping the pass cannot change the result). The check decodes *skipPasses*/*skipPasses2* from the real Glat of generated "
+         "programs (1-35 passes, insertion-first/deletion/context-only rules, explicit passKeySlot, ANY) and evaluates the hypothesis per pass; a failure is reported with a concrete text of "
+         "skippable glyphs that the rule matches. In addition each program is compiled with and without -p and 60-200 texts are shaped with both fonts through libgraphite2."),
+   note=TB + "Assumes the engine contract for skipping (DESIGN appendix A) and that a pass in which no effective rule matches is the identity. Passes >= 32 are never skipped.",
+   design="4/C14"),
  "C06": dict(
    technique="Lean 4 theorems (padding alignment, start-of-text firing, trial order) + their hypotheses evaluated on decoded real output",
    text=("Proof: Grc.Prec.padding_preserves_match (for every glyph string and scan position the ANY-padded rule matches iff the rule as written "
